@@ -14,53 +14,53 @@ Definition reviewed : list (string * string * string * string * string) := [
      "not-hash: a slice of identifiers");
   ("formatter/src/formatter.rs", "format_scoped_identifier", "for:scopes", "ordered @b8a41e9f42",
      "not-hash: a slice of identifiers");
-  ("ir/src/ir_module.rs", "assign_api_bindings", "for:inline_size", "sorted inline_constant_buffers.sort()",
+  ("ir/src/ir_module.rs", "assign_api_bindings", "for:inline_size", "sorted inline_constant_buffers.sort() @a9214933b2",
      "sorted: C07_pair_sort (inline_constant_buffers.sort())");
-  ("ir/src/name_generator.rs", "build", "for:&scopes", "into-set",
+  ("ir/src/name_generator.rs", "build", "for:&scopes", "into-set @f08d193547",
      "scopes: C07_name_scopes");
-  ("ir/src/name_generator.rs", "build", "arg:scope.1.iter()", "sorted name_to_symbol_vec.sort_by(|l,r|String::cmp(l.0,r.0))",
+  ("ir/src/name_generator.rs", "build", "arg:scope.1.iter()", "sorted name_to_symbol_vec.sort_by(|l,r|String::cmp(l.0,r.0)) @f08d193547",
      "sorted: C07_scope_names (names of one scope)");
-  ("ir/src/name_generator.rs", "build", "scope.1.iter(", "sorted name_to_symbol_vec.sort_by(|l,r|String::cmp(l.0,r.0))",
+  ("ir/src/name_generator.rs", "build", "scope.1.iter(", "sorted name_to_symbol_vec.sort_by(|l,r|String::cmp(l.0,r.0)) @f08d193547",
      "sorted: C07_scope_names (names of one scope)");
-  ("ir/src/name_generator.rs", "build", "for:symbols", "into-set",
+  ("ir/src/name_generator.rs", "build", "for:symbols", "into-set @f08d193547",
      "not-hash: a Vec of symbols");
-  ("ir/src/name_generator.rs", "build", "for:&name_map.names", "into-set",
+  ("ir/src/name_generator.rs", "build", "for:&name_map.names", "into-set @f08d193547",
      "set: the loop body only inserts namespace ids into the HashSet used_namespaces (a namespace and its parents when a non-namespace symbol lives in it); the early `break` only skips parents that are already in the set");
-  ("ir/src/name_generator.rs", "build", "for:&name_map.names", "into-set",
+  ("ir/src/name_generator.rs", "build", "for:&name_map.names", "into-set @f08d193547",
      "set: the loop body only inserts the name into the HashSet of its namespace (namespace_names), read by membership tests alone");
   ("ir/src/usage_analysis.rs", "recurse", "self.0.keys(", "collected-unsorted @f19a2586da",
      "fixpoint: C07_usage_fixpoint");
-  ("ir/src/usage_analysis.rs", "recurse", "for:&current_set.required", "into-set",
+  ("ir/src/usage_analysis.rs", "recurse", "for:&current_set.required", "into-set @f19a2586da",
      "set: elements only go into another set");
-  ("ir/src/usage_analysis.rs", "recurse", "arg:&self.0.get(other).unwrap().required", "into-set",
+  ("ir/src/usage_analysis.rs", "recurse", "arg:&self.0.get(other).unwrap().required", "into-set @f19a2586da",
      "set: elements only go into another set");
-  ("msl/src/generator.rs", "analyse_globals", "for:global_usage.get_usage_for_function(id)", "sorted required_globals.sort()",
+  ("msl/src/generator.rs", "analyse_globals", "for:global_usage.get_usage_for_function(id)", "sorted required_globals.sort() @79e2298446",
      "sorted: C07_sort (required_globals.sort(), derived total order)");
   ("msl/src/generator.rs", "generate_function_inner", "for:&decl.scope_block.0", "collected-unsorted @20e5a43dc2",
      "not-hash: the statements of a block");
-  ("msl/src/generator.rs", "metal_lib_identifier_complex", "arg:names", "into-set",
+  ("msl/src/generator.rs", "metal_lib_identifier_complex", "arg:names", "into-set @825997b8b4",
      "not-hash: a slice of names");
-  ("msl/src/generator/intrinsic_helpers.rs", "generate_helpers", "arg:required_helpers", "sorted objects.sort_by(|(key_lhs,_),(key_rhs,_)|std::cmp::Ord::cmp(key_lhs,key_rhs))",
+  ("msl/src/generator/intrinsic_helpers.rs", "generate_helpers", "arg:required_helpers", "sorted objects.sort_by(|(key_lhs,_),(key_rhs,_)|std::cmp::Ord::cmp(key_lhs,key_rhs)) @48fa373fe9",
      "sorted: C07_sort (objects.sort_by / ordered.sort(), derived total orders on distinct elements)");
-  ("msl/src/generator/intrinsic_helpers.rs", "generate_helpers", "arg:helpers", "sorted ordered.sort()",
+  ("msl/src/generator/intrinsic_helpers.rs", "generate_helpers", "arg:helpers", "sorted ordered.sort() @48fa373fe9",
      "sorted: C07_sort (objects.sort_by / ordered.sort(), derived total orders on distinct elements)");
-  ("msl/src/generator/pipeline.rs", "generate_pipeline", "for:&mutbinding_layout.0", "reduce",
+  ("msl/src/generator/pipeline.rs", "generate_pipeline", "for:&mutbinding_layout.0", "reduce @0171f84691",
      "not-hash: BindingLayout / ArgumentBuffer wrap a Vec");
-  ("msl/src/generator/pipeline.rs", "generate_pipeline", "for:&mutargument_buffer.0", "reduce",
+  ("msl/src/generator/pipeline.rs", "generate_pipeline", "for:&mutargument_buffer.0", "reduce @0171f84691",
      "not-hash: BindingLayout / ArgumentBuffer wrap a Vec");
   ("msl/src/generator/pipeline.rs", "generate_pipeline", "&mutbinding_layout.0.iter(", "ordered @0171f84691",
      "not-hash: BindingLayout / ArgumentBuffer wrap a Vec");
-  ("msl/src/generator/pipeline.rs", "generate_pipeline", "for:&argument_buffer.0", "into-set",
+  ("msl/src/generator/pipeline.rs", "generate_pipeline", "for:&argument_buffer.0", "into-set @0171f84691",
      "not-hash: BindingLayout / ArgumentBuffer wrap a Vec");
   ("msl/src/generator/pipeline.rs", "generate_pipeline", "binding_layout.0.iter_mut(", "ordered @0171f84691",
      "not-hash: BindingLayout / ArgumentBuffer wrap a Vec");
   ("msl/src/generator/pipeline.rs", "generate_pipeline", "for:&argument_buffer.0", "collected-unsorted @0171f84691",
      "not-hash: BindingLayout / ArgumentBuffer wrap a Vec");
-  ("parser/src/parser/expressions.rs", "parse_expression_resolve_symbols", "for:symbols", "into-set",
+  ("parser/src/parser/expressions.rs", "parse_expression_resolve_symbols", "for:symbols", "into-set @f1ae854ece",
      "not-hash: a Vec");
-  ("parser/src/parser/expressions.rs", "parse_expression_resolve_symbols", "for:&selected_result.1", "reduce",
+  ("parser/src/parser/expressions.rs", "parse_expression_resolve_symbols", "for:&selected_result.1", "reduce @f1ae854ece",
      "not-hash: a Vec");
-  ("typer/src/typer/scopes.rs", "ensure_struct_template", "ast.template_params.0.iter(", "reduce",
+  ("typer/src/typer/scopes.rs", "ensure_struct_template", "ast.template_params.0.iter(", "reduce @8532fd6a56",
      "not-hash: a Vec of template parameters");
   ("typer/src/typer/scopes.rs", "walk_into_scopes", "for:names", "ordered @3ea1a0e416",
      "not-hash: a slice / the Vec stored under one name");
@@ -76,7 +76,7 @@ Definition reviewed : list (string * string * string * string * string) := [
      "not-hash: the Vec stored under one name");
   ("typer/src/typer/scopes.rs", "build_function_template_signature", "self.scopes[old_scope_id].symbols.values(", "ordered @68eadfb9e6",
      "commutative: assertions only");
-  ("typer/src/typer/scopes.rs", "build_function_template_signature", "for:symbols", "assert-only",
+  ("typer/src/typer/scopes.rs", "build_function_template_signature", "for:symbols", "assert-only @68eadfb9e6",
      "not-hash: the Vec stored under one name");
   ("typer/src/typer/scopes.rs", "build_function_template_signature", "for:&self.scopes[old_scope_id].symbols", "collected-unsorted @68eadfb9e6",
      "set: distinct names inserted into a map");
